@@ -179,7 +179,7 @@ pub struct Alt {
 
 impl Ctx {
     pub fn session(&self, cpus: usize, faults: Vec<Fault>, ops: Vec<Op>) -> Session {
-        Session { cpus, faults, ops, expected_docs: self.expected_docs, repo: self.repo.clone(), alt: false, ver: false, rand: 0 }
+        Session { cpus, faults, ops, expected_docs: self.expected_docs, repo: self.repo.clone(), alt: false, ver: false, env: vec![], rand: 0 }
     }
     /// the data and reference of build 0 (this tree), 1 (other data) or 2 (other version)
     pub fn side_b(&self, build: u8) -> (&Shipped, &Reference) {
